@@ -166,7 +166,7 @@ def LastItemIndented (nodes : List Node) (id : Nat) : Prop :=
   ∃ lc, (nodes.getD id default).children.getLast? = some lc ∧ (nodes.getD lc default).kind = .listItem ∧
     0 < (nodes.getD lc default).offset
 
-theorem lastOffset_inv {id lc : Nat} {s : St} {v : Int} {s' : St}
+theorem lastOffset_invI {id lc : Nat} {s : St} {v : Int} {s' : St}
     (hlc : (s.nodes.getD id default).children.getLast? = some lc) (hk : (s.nodes.getD lc default).kind = .listItem)
     (h : lastOffset id s = .ok (v, s')) : v = (s.nodes.getD lc default).offset ∧ s' = s := by
   unfold lastOffset at h
@@ -180,7 +180,7 @@ theorem lastOffset_inv {id lc : Nat} {s : St} {v : Int} {s' : St}
   obtain ⟨rfl, rfl⟩ := pure_ok h
   exact ⟨rfl, rfl⟩
 
-theorem lastChildCount_inv {id : Nat} {s : St} {v : Int} {s' : St} (h : lastChildCount id s = .ok (v, s')) :
+theorem lastChildCount_invI {id : Nat} {s : St} {v : Int} {s' : St} (h : lastChildCount id s = .ok (v, s')) :
     s' = s := by
   unfold lastChildCount at h
   obtain ⟨n, s1, h1, h⟩ := bind_ok h
@@ -211,10 +211,10 @@ theorem closesAt_list (rest : Bytes) (be : Block) (s : St) (hbp : be.bp = .list)
   simp only [Option.getD, isBlank_hash, Bool.false_eq_true, if_false] at h
   have hn3 : s4.nodes = s.nodes := hn4.trans hn
   obtain ⟨offset, s5, h5, h⟩ := bind_ok h
-  obtain ⟨hoffv, hs5⟩ := lastOffset_inv (by rw [hn3]; exact hlc) (by rw [hn3]; exact hk) h5
+  obtain ⟨hoffv, hs5⟩ := lastOffset_invI (by rw [hn3]; exact hlc) (by rw [hn3]; exact hk) h5
   rw [hn3] at hoffv
   obtain ⟨cnt, s6, h6, h⟩ := bind_ok h
-  have hs6 := lastChildCount_inv h6
+  have hs6 := lastChildCount_invI h6
   obtain ⟨lo, s7, h7, h⟩ := bind_ok h
   rw [hs6, hs5] at h7
   obtain ⟨hl7, hn7, hp7, c7⟩ := lineOffset_atLine hl4 h7
